@@ -14,7 +14,7 @@ from concurrent.futures import ThreadPoolExecutor
 V = os.path.dirname(os.path.abspath(__file__))
 REVERT = {"F1": ["C02", "C12"], "F2": ["C02", "C12"], "F3": ["C06"], "F4": ["C06"], "F5": ["C16"], "F6": ["C18", "C01"], "F7": ["C09"],
           "F8": ["C01"], "F9": ["C08"], "F10": ["C08"], "F10b": ["C08"], "F11": ["C10"], "F12": ["C10"], "F16": ["C19"], "F17": ["C16"],
-          "F18": ["C13"], "F19": ["C08"]}
+          "F18": ["C13"], "F19": ["C08"], "F20": ["C10"]}
 
 
 def corpus():
